@@ -267,6 +267,15 @@ func TestCheck(t *testing.T) {
 		}
 		up := hellogen.Stream(rng, rng.IntN(3000), []int{16384, 16384 + 256, 200}[rng.IntN(3)])
 		down := hellogen.Stream(rng, rng.IntN(3000), []int{16384, 16384 + 256, 200}[rng.IntN(3)])
+		// Every third case is a HelloRetryRequest flow: the backend answers the passed-through hello with a
+		// HelloRetryRequest and the client sends a second ClientHello (the same records again: GREASE, unknown ids and
+		// undecryptable payloads stay what they are). Nothing was accepted, so nothing may be interpreted: the backend's
+		// bytes are written BEFORE the client's remaining bytes are read, the order in which a proxy sees them.
+		hrrFlow := i%3 == 2
+		if hrrFlow {
+			down = append(tlswire.HRRRecord(k.hello.SessionID, 0x0017), down...)
+			up = append(append(tlswire.Record(20, 0x0303, []byte{1}), k.record...), up...)
+		}
 		k.desc = map[string]any{"class": class, "keyset": keysetKind, "record": mon.Clip(mon.Hex(k.record), 6000), "client_records": len(crecs), "nkeys": len(k.keys), "up_len": len(up), "down_len": len(down)}
 		sig := "passthrough:" + class
 		r.Guard("passthrough", i, sig, k.desc, func() {
@@ -351,9 +360,19 @@ func TestCheck(t *testing.T) {
 				}
 			}
 			// every later byte, both directions
-			got, rerr := io.ReadAll(readerWithBuf{out.Conn, 1 + rng.IntN(5000)})
-			if rerr != nil || !bytes.Equal(got, up) {
-				r.Violate("passthrough", i, sig+":upstream-modified", fmt.Sprintf("client->backend bytes after the hello differ: got %d want %d err=%v (first diff %d)", len(got), len(up), rerr, firstDiff(got, up)), k.desc)
+			readUp := func() bool {
+				got, rerr := io.ReadAll(readerWithBuf{out.Conn, 1 + rng.IntN(5000)})
+				if rerr != nil || !bytes.Equal(got, up) {
+					s := sig
+					if hrrFlow {
+						s += ":after-hello-retry-request"
+					}
+					r.Violate("passthrough", i, s+":upstream-modified", fmt.Sprintf("client->backend bytes after the hello differ: got %d want %d err=%v (first diff %d)", len(got), len(up), rerr, firstDiff(got, up)), k.desc)
+					return false
+				}
+				return true
+			}
+			if !hrrFlow && !readUp() {
 				return
 			}
 			for p := 0; p < len(down); {
@@ -364,6 +383,12 @@ func TestCheck(t *testing.T) {
 					return
 				}
 				p = q
+			}
+			if hrrFlow {
+				if !readUp() {
+					return
+				}
+				r.Count("hello_retry_request_flows_passed_through", 1)
 			}
 			if w := tc.Written(); !bytes.Equal(w, down) {
 				r.Violate("passthrough", i, sig+":downstream-modified", fmt.Sprintf("backend->client bytes differ: got %d want %d (first diff %d)", len(w), len(down), firstDiff(w, down)), k.desc)
@@ -383,6 +408,7 @@ func TestCheck(t *testing.T) {
 		r.Floor("class_"+c, int64(n/len(classes)/2))
 	}
 	r.Floor("compared_with_cryptotls", int64(n)/10)
+	r.Floor("hello_retry_request_flows_passed_through", int64(n)/5)
 }
 
 type readerWithBuf struct {
